@@ -113,7 +113,7 @@ def derivative_job(interp, c, case):
     fi.native = compute_propensities
     try:
         itf.prep_deterministic_simulation()
-        dx = np.zeros(S_, dtype=object)
+        dx = sym_array(c, "stale", S_, "real")          # whatever the caller's output array held before: every entry is (over)written
         xs = x.copy()
         itf.calculate_deterministic_derivative(ptr(interp, xs), ptr(interp, dx), t)
     finally:
@@ -141,7 +141,7 @@ def model_derivative_job(interp, c, case):
     Sm = interp.load("bioscrape.simulator")
     k1, k2, k3 = c.real("k1", lo=0), c.real("k2", lo=0), c.real("k3", lo=0)
     kf, kr = c.real("kf", lo=0), c.real("kr", lo=0)
-    M = T.ns["Model"](species=["B", "A", "C"],
+    M = T.ns["Model"](species=["B", "A", "C", "Z"],           # Z takes part in no reaction: its derivative is 0, written like any other
                       reactions=[(["A", "A"], ["B"], "massaction", {"k": "k1"}),
                                  (["A", "B"], ["A"], "massaction", {"k": "k2"}, "fixed", [], ["C", "C"], {"delay": "tau"}),
                                  ([], ["A"], "massaction", {"k": "k3"})]
@@ -151,17 +151,17 @@ def model_derivative_job(interp, c, case):
                       parameters=[("k1", k1), ("k2", k2), ("k3", k3), ("tau", 1.0), ("kf", kf), ("kr", kr)])
     itf = Sm.ns["SafeModelCSimInterface" if safe else "ModelCSimInterface"](M)
     itf.py_prep_deterministic_simulation()
-    st = {s: c.real("s_" + s, lo=0) for s in ("A", "B", "C")}
+    st = {s: c.real("s_" + s, lo=0) for s in ("A", "B", "C", "Z")}
     if safe:
         for v in st.values():
             c.assume(v > 0)
     x = np.array([st[s] for s in M.get_species_list()], dtype=object)
-    dx = np.zeros(3, dtype=object)
+    dx = sym_array(c, "stale", 4, "real")
     itf.py_calculate_deterministic_derivative(x, dx, 0)
     A, B = st["A"], st["B"]
     r1, r2, r3 = k1 * A * A, k2 * A * B, k3
     r4 = 0 if safe else kf * A - kr * B
-    want = {"A": -2 * r1 + r3, "B": r1 - r2 - r4, "C": 2 * r2 + r4}
+    want = {"A": -2 * r1 + r3, "B": r1 - r2 - r4, "C": 2 * r2 + r4, "Z": 0}
     _rep(c, s_and(*[dx[i] == want[s] for i, s in enumerate(M.get_species_list())]),
          "%s interface on a real model: 2A->B, A+B->A (+2C delayed), 0->A%s gives dA=-2k1A^2+k3, dB=k1A^2-k2AB%s, dC=2k2AB%s"
          % (("safe", "", "", "") if safe else ("plain", ", B->C at the net rate kf*A-kr*B of either sign", "-(kfA-krB)", "+(kfA-krB)")),
